@@ -691,6 +691,16 @@ func contradicts(cs []Cond) bool {
 			}
 		}
 	}
+	// two integer facts P > 0 and Q > 0 need P + Q >= 2: x <= 0 together with x > 1 is infeasible
+	if pl, kind, ok := last.Rel().IntNorm(); ok && kind == ">" {
+		for _, c := range cs[:len(cs)-1] {
+			if ql, k2, ok2 := c.Rel().IntNorm(); ok2 && k2 == ">" {
+				if k, isC := pl.Add(ql, 1).IsConst(); isC && k <= 1 {
+					return true
+				}
+			}
+		}
+	}
 	// a select arm on a nil channel is never chosen: "index == k" is infeasible when arm k's channel is the nil constant
 	if r := last.Rel(); r.B != nil && r.Op == "==" {
 		a, b := r.A, r.B
